@@ -1197,4 +1197,306 @@ example : parseArgT noDb ⟨none, fun _ => none⟩ .path (unquote (quote [47, 32
 /-- hypotheses of `defaults_fill_exactly_the_missing`: one of three parameters given, two defaults -/
 example : bindD ⟨[.str, .str, .int], [.s [100], .i 7], none⟩ 1 = some ([.str], [.s [100], .i 7]) := by decide
 
+/-! ### round-6 owner fixes -/
+
+/-! #### (1) the theorems above reach the function the driver executes on ITS command table -/
+
+/-- the command name a line looks up: the unquoted first argument token -/
+def lookedUp (line : Str) : Option Str := ((argTokens line).map unquote).head?
+
+/-- execution consults the command table at ONE name only -/
+theorem executeD_depends_on_looked_up_name (db : UniDb) (env : Env) (c1 c2 : Str → Option SigD) (line : Str)
+    (h : ∀ n, lookedUp line = some n → c1 n = c2 n) : executeD db env c1 line = executeD db env c2 line := by
+  unfold executeD
+  cases hl : (argTokens line).map unquote with
+  | nil => rfl
+  | cons name args =>
+    have := h name (by simp [lookedUp, hl])
+    simp only [this]
+
+/-- a str / verbatim signature without defaults, in the driver's vocabulary -/
+def plainOf (s : Sig) : SigD := ⟨s.params.map liftTy, [], s.varargs.map liftTy⟩
+
+/-- **executeD_on_plain_entry.** Pointwise bridge: whenever the entry the line looks up in a `SigD` table is the plain
+    image of the entry in a `Sig` table (str / verbatim parameters, no defaults) — whatever the tables contain elsewhere —
+    `executeD` on the one is `executeSig` on the other. -/
+theorem executeD_on_plain_entry (db : UniDb) (env : Env) (cD : Str → Option SigD) (cS : Str → Option Sig) (line : Str)
+    (h : ∀ n, lookedUp line = some n → cD n = (cS n).map plainOf) :
+    executeD db env cD line = liftExec (executeSig db cS line) := by
+  rw [executeD_depends_on_looked_up_name db env cD (fun n => ((cS n).map liftSig).map fun s => ⟨s.params, [], s.varargs⟩) line
+    (by intro n hn; rw [h n hn]; cases cS n <;> rfl)]
+  rw [execute_without_defaults db env (fun n => (cS n).map liftSig) line]
+  exact typed_execute_extends_execute db env cS line
+
+/-- on the six str / verbatim test commands (and on every unregistered name) the driver's table is the plain image of
+    `harnessSigs` -/
+theorem harness_table_plain (n : Str) (h : (harnessSigs n).isSome = true ∨ harnessCmds n = none) :
+    harnessCmds n = (harnessSigs n).map plainOf := by
+  by_cases h1 : n = ascii "t.s"
+  · subst h1; rfl
+  by_cases h2 : n = ascii "t.v"
+  · subst h2; rfl
+  by_cases h3 : n = ascii "t.one"
+  · subst h3; rfl
+  by_cases h4 : n = ascii "t.two"
+  · subst h4; rfl
+  by_cases h5 : n = ascii "t.mix"
+  · subst h5; rfl
+  by_cases h6 : n = ascii "t.none"
+  · subst h6; rfl
+  have hs : harnessSigs n = none := by simp only [harnessSigs, h1, h2, h3, h4, h5, h6, if_false]
+  rw [hs] at h ⊢
+  rcases h with h | h
+  · cases h
+  · exact h
+
+/-- **driver_executes_executeSig.** What the driver computes (`executeD db env harnessCmds`) IS `executeSig` of the
+    theorems above, for every line whose command is one of t.s, t.v, t.one, t.two, t.mix, t.none or is not registered. -/
+theorem driver_executes_executeSig (db : UniDb) (env : Env) (line : Str)
+    (h : ∀ n, lookedUp line = some n → (harnessSigs n).isSome = true ∨ harnessCmds n = none) :
+    executeD db env harnessCmds line = liftExec (executeSig db harnessSigs line) :=
+  executeD_on_plain_entry db env harnessCmds harnessSigs line (fun n hn => harness_table_plain n (h n hn))
+
+private theorem lookedUp_cmdline (cmd : Str) (args : List Str) (hc : bareWord cmd) :
+    lookedUp (cmdline cmd args) = some cmd := by
+  simp [lookedUp, argTokens_cmdline cmd args hc, unquote_bare cmd hc.2]
+
+/-- **arg_unchanged_on_driver_table (partial).** `arg_unchanged_sig_partial` for the function and the table the driver
+    runs against mitmproxy: for each of the str / verbatim test commands, the quoted arguments arrive unchanged (as `str`
+    values) under the per-parameter guard. -/
+theorem arg_unchanged_on_driver_table (db : UniDb) (env : Env) (cmd : Str) (sig : Sig) (tys : List ArgTy) (args : List Str)
+    (hc : bareWord cmd) (hcmd : harnessSigs cmd = some sig) (hb : bindTys sig args.length = some tys)
+    (hg : argsOk tys args = true) :
+    executeD db env harnessCmds (cmdline cmd args) = .call cmd (args.map TVal.s) := by
+  rw [driver_executes_executeSig db env _ (by
+    intro n hn
+    rw [lookedUp_cmdline cmd args hc] at hn
+    cases hn; left; simp [hcmd])]
+  rw [arg_unchanged_sig_partial db harnessSigs cmd sig tys args hc hcmd hb hg]
+  rfl
+
+example : executeD noDb ⟨none, fun _ => none⟩ harnessCmds (cmdline (ascii "t.two") [[39, 34, 32], [92, 110]]) =
+    .call (ascii "t.two") [.s [39, 34, 32], .s [92, 110]] :=
+  arg_unchanged_on_driver_table _ _ _ ⟨[.str, .verbatim], none⟩ [.str, .verbatim] _ ⟨by decide, by decide⟩ rfl rfl (by decide)
+
+/-! #### (3) the exact guard for `str` parameters -/
+
+/-- the text a `str` parameter has to interpret for `quote a` -/
+def quotedText (a : Str) : Str := if a.contains 34 && a.contains 39 then escDq a else a
+
+/-- exact guard: verbatim — not both quote characters; `str` — the escape-by-escape reading of the quoted text is `a`
+    (`\q`, a trailing `\`, `\x4` pass; `\n`, `\x41`, `\N{…}` do not) -/
+def argOkX (db : UniDb) : ArgTy → Str → Bool
+  | .verbatim, a => !(a.contains 34 && a.contains 39)
+  | .str, a => strParse db (quotedText a) == some a
+
+private theorem unquote_quote_text (a : Str) : unquote (quote a) = quotedText a := by
+  unfold quotedText
+  by_cases h : a.contains 34 = true ∧ a.contains 39 = true
+  · simp only [h.1, h.2, Bool.and_self, if_true]; exact unquote_quote_both a h.1 h.2
+  · have : (a.contains 34 && a.contains 39) = false := by
+      cases h34 : a.contains 34 <;> cases h39 : a.contains 39 <;> simp_all
+    simp only [this, Bool.false_eq_true, if_false]; exact unquote_quote a h
+
+private theorem escDq_cons (c : Nat) (r : Str) :
+    escDq (c :: r) = (if c == 34 then [92, 120, 50, 50] else [c]) ++ escDq r := by
+  simp only [escDq, List.flatMap_cons]
+
+private theorem escDq_length_le (a : Str) : a.length ≤ (escDq a).length := by
+  induction a with
+  | nil => exact Nat.le_refl _
+  | cons c r ih =>
+    rw [escDq_cons, List.length_append, List.length_cons]
+    split
+    · simp only [List.length_cons, List.length_nil]; omega
+    · simp only [List.length_cons, List.length_nil]; omega
+
+private theorem escDq_length_lt (a : Str) (h : a.contains 34 = true) : a.length < (escDq a).length := by
+  induction a with
+  | nil => simp at h
+  | cons c r ih =>
+    have hle := escDq_length_le r
+    rw [escDq_cons, List.length_append, List.length_cons]
+    by_cases hc : (c == 34) = true
+    · simp only [hc, if_true, List.length_cons, List.length_nil]; omega
+    · simp only [hc, Bool.false_eq_true, if_false, List.length_cons, List.length_nil]
+      have hr : r.contains 34 = true := by
+        simp only [List.contains_cons, Bool.or_eq_true] at h
+        rcases h with h | h
+        · have : c = 34 := by
+            have := h; simp only [beq_iff_eq] at this; exact this.symm
+          exact absurd (by simp [this]) hc
+        · exact h
+      have := ih hr
+      omega
+
+/-- **deliver_iff.** For every string and both kinds of parameter: the command receives `a` for `quote a` EXACTLY when
+    the guard holds — the guard excludes the defect classes F-C45a / F-C45b and nothing else. -/
+theorem deliver_iff (db : UniDb) (ty : ArgTy) (a : Str) :
+    parseArg db ty (unquote (quote a)) = some a ↔ argOkX db ty a = true := by
+  rw [unquote_quote_text]
+  cases ty with
+  | str => simp only [parseArg, argOkX, beq_iff_eq]
+  | verbatim =>
+    simp only [parseArg, argOkX, Option.some.injEq, quotedText]
+    cases hb : (a.contains 34 && a.contains 39) with
+    | true =>
+      simp only [if_true, Bool.not_true, Bool.false_eq_true, iff_false]
+      intro e
+      have h34 : a.contains 34 = true := by simp only [Bool.and_eq_true] at hb; exact hb.1
+      have := escDq_length_lt a h34
+      rw [e] at this; omega
+    | false => simp
+
+/-- the guard of `arg_unchanged_partial` implies the exact one (it is strictly narrower: it refuses `\q`) -/
+theorem argOk_implies_argOkX (db : UniDb) (ty : ArgTy) (a : Str) (h : argOk ty a = true) : argOkX db ty a = true :=
+  (deliver_iff db ty a).mp (deliver_ok db ty a h)
+
+/-- **arg_unchanged_exact (partial).** `arg_unchanged_partial` under the exact guard. -/
+theorem arg_unchanged_exact_partial (db : UniDb) (cmds : Str → Option ArgTy) (cmd : Str) (ty : ArgTy) (args : List Str)
+    (hc : bareWord cmd) (hcmd : cmds cmd = some ty) (hg : ∀ a ∈ args, argOkX db ty a = true) :
+    execute db cmds (cmdline cmd args) = .call cmd args := by
+  unfold execute
+  rw [argTokens_cmdline cmd args hc]
+  simp only [List.map_cons, unquote_bare cmd hc.2, hcmd, List.map_map]
+  have := collect_map args (parseArg db ty ∘ unquote ∘ quote) (fun a ha => (deliver_iff db ty a).mpr (hg a ha))
+  rw [this]
+
+/-- **arg_unchanged_exact_iff.** For ONE argument the guard is exact: the command is called with `a` if and only if the
+    guard holds. -/
+theorem arg_unchanged_exact_iff (db : UniDb) (cmds : Str → Option ArgTy) (cmd : Str) (ty : ArgTy) (a : Str)
+    (hc : bareWord cmd) (hcmd : cmds cmd = some ty) :
+    execute db cmds (cmdline cmd [a]) = .call cmd [a] ↔ argOkX db ty a = true := by
+  constructor
+  · intro h
+    unfold execute at h
+    rw [argTokens_cmdline cmd [a] hc] at h
+    simp only [List.map_cons, List.map_nil, unquote_bare cmd hc.2, hcmd] at h
+    apply (deliver_iff db ty a).mp
+    cases hp : parseArg db ty (unquote (quote a)) with
+    | none => simp [hp, collect] at h
+    | some b =>
+      simp only [hp, collect, Option.map_some, Exec.call.injEq, List.cons.injEq, and_true, true_and] at h
+      rw [h]
+  · intro h
+    exact arg_unchanged_exact_partial db cmds cmd ty [a] hc hcmd (by intro x hx; simp at hx; subst hx; exact h)
+
+-- `\q`, a trailing backslash and `\x4` are inside the exact guard (and outside the old one); `\n` is outside both
+example : argOkX noDb .str [92, 113] = true ∧ argOk .str [92, 113] = false ∧ argOkX noDb .str [116, 92] = true ∧
+    argOkX noDb .str [92, 120, 52] = true ∧ argOkX noDb .str [92, 110] = false ∧
+    argOkX noDb .str [39, 34, 233] = true ∧ argOkX noDb .verbatim [39, 34] = false := by decide
+
+/-! #### (5) the fuel of `strParse` is adequate: `none` always means a refused escape, never exhausted fuel -/
+
+private theorem takeDots_len : ∀ (n : Nat) (r ds rest : Str), takeDots n r = some (ds, rest) → rest.length ≤ r.length := by
+  intro n
+  induction n with
+  | zero => intro r ds rest h; simp only [takeDots, Option.some.injEq, Prod.mk.injEq] at h; rw [← h.2]; exact Nat.le_refl _
+  | succ n ih =>
+    intro r ds rest h
+    cases r with
+    | nil => simp [takeDots] at h
+    | cons c t =>
+      simp only [takeDots] at h
+      split at h
+      · cases h
+      · cases ht : takeDots n t with
+        | none => simp [ht] at h
+        | some x =>
+          obtain ⟨d, rs⟩ := x
+          simp only [ht, Option.map_some, Option.some.injEq, Prod.mk.injEq] at h
+          have := ih t d rs ht
+          rw [← h.2]; simp only [List.length_cons]; omega
+
+private theorem spanNot_len (stop : Nat) (r : Str) : (spanNot stop r).2.length ≤ r.length := by
+  induction r with
+  | nil => exact Nat.le_refl _
+  | cons c t ih =>
+    simp only [spanNot]
+    split
+    · exact Nat.le_refl _
+    · simp only [List.length_cons]; omega
+
+private theorem spanNot_snd_len (stop : Nat) (r a b : Str) (h : spanNot stop r = (a, b)) : b.length ≤ r.length := by
+  have := spanNot_len stop r
+  rw [h] at this; exact this
+
+private theorem escape_rest_le (db : UniDb) (r : Str) (v : Nat) (rest : Str) (h : escape db r = .ok v rest) :
+    rest.length ≤ r.length := by
+  cases r with
+  | nil => simp [escape] at h
+  | cons c t =>
+    simp only [escape] at h
+    repeat' split at h
+    all_goals first
+      | (cases h <;> done)
+      | (cases h; simp only [List.length_cons]; omega)
+      | (cases h; have := takeDots_len _ _ _ _ (by assumption); simp only [List.length_cons] at *; omega)
+      | (cases h
+         rename_i hsp
+         have := spanNot_snd_len _ _ _ _ hsp
+         simp only [List.length_cons] at *; omega)
+
+/-- fuel is irrelevant once it covers the text: the result of `strParseF` is the same for every sufficient fuel -/
+private theorem strParseF_fuel (db : UniDb) : ∀ (f : Nat) (s : Str) (g : Nat), s.length ≤ f → s.length ≤ g →
+    strParseF db f s = strParseF db g s := by
+  intro f
+  induction f with
+  | zero =>
+    intro s g hf _
+    have : s = [] := by cases s with | nil => rfl | cons _ _ => simp at hf
+    subst this
+    cases g <;> rfl
+  | succ f ih =>
+    intro s g hf hg
+    cases s with
+    | nil => cases g <;> rfl
+    | cons c r =>
+      cases g with
+      | zero => simp at hg
+      | succ g =>
+        have hf' : r.length ≤ f := by simpa using hf
+        have hg' : r.length ≤ g := by simpa using hg
+        simp only [strParseF]
+        split
+        · rw [ih r g hf' hg']
+        · cases he : escape db r with
+          | noMatch => simp only; rw [ih r g hf' hg']
+          | bad => rfl
+          | ok v rest =>
+            have hl := escape_rest_le db r v rest he
+            simp only
+            rw [ih rest g (by omega) (by omega)]
+
+/-- **str_parse_fuel_adequate.** `strParse` (fuel = the length of the text) never fails for lack of fuel: more fuel gives
+    the same answer, so `none` always means that `unicode-escape` refused an escape sequence. -/
+theorem str_parse_fuel_adequate (db : UniDb) (s : Str) (f : Nat) (h : s.length ≤ f) :
+    strParseF db f s = strParse db s :=
+  strParseF_fuel db f s s.length h (Nat.le_refl _)
+
+/-! #### (6) a console-built line lies in the good class of the splitting theorem -/
+
+private theorem noAdjacent_alternating (args : List Str) : ∀ x : Str,
+    noAdjacent (x :: args.flatMap (fun a => [[32], quote a])) = true := by
+  induction args with
+  | nil => intro x; rfl
+  | cons a r ih =>
+    intro x
+    have h32 : isSpaceTok [32] = true := by decide
+    simp only [List.flatMap_cons, List.cons_append, List.nil_append, noAdjacent, h32, Bool.or_true, Bool.true_or,
+      Bool.true_and]
+    exact ih (quote a)
+
+/-- **cmdline_splits_at_unquoted_ws.** The two halves of the statement meet: for every command word and ANY arguments,
+    the line the console builds has no touching argument tokens, so its arguments are exactly the pieces between
+    unquoted whitespace — the command and the quoted arguments. -/
+theorem cmdline_splits_at_unquoted_ws (cmd : Str) (args : List Str) (hc : bareWord cmd) :
+    noAdjacent (lex (cmdline cmd args)) = true ∧
+    refSplit (cmdline cmd args) = cmd :: args.map quote := by
+  have hl : lex (cmdline cmd args) = cmd :: args.flatMap (fun a => [[32], quote a]) := by
+    unfold cmdline
+    rw [lex_tok cmd _ (Or.inl hc) (rest_shape args), lex_args]
+  have hn : noAdjacent (lex (cmdline cmd args)) = true := by rw [hl]; exact noAdjacent_alternating args cmd
+  exact ⟨hn, by rw [← lexer_splits_at_unquoted_ws_partial _ hn, argTokens_cmdline cmd args hc]⟩
+
 end MitmVerif.Props.C45
